@@ -157,6 +157,56 @@ def _same_num(a, b):
     return close(a, b)
 
 
+def sig_rename(sig, cmap):
+    """rename the compartments of a signature (cmap: old name -> new name)"""
+    if sig is None or not cmap:
+        return sig
+    comps = {cmap.get(n, n): c for n, c in sig['comps'].items()}
+    flows = {(cmap.get(u, u), cmap.get(v, v)): r for (u, v), r in sig['flows'].items()}
+    return {'comps': comps, 'flows': flows}
+
+
+def cs_structure(model):
+    """(compartment name -> (amount function name, number of doses), set of (src, dst) edges) or None"""
+    from pharmpy.model import Compartment
+
+    cs = model.statements.ode_system
+    if cs is None:
+        return None
+    comps = {c.name: (_sname(c.amount), len(c.doses)) for c in cs._g.nodes if isinstance(c, Compartment)}
+    edges = set()
+    for u, v in cs._g.edges():
+        edges.add((u.name, v.name if isinstance(v, Compartment) else 'OUTPUT'))
+    return comps, edges
+
+
+def compartment_bijections(st0, st1, limit=24):
+    """candidate renamings of compartments (name in model 0 -> name in model 1) that preserve the graph
+    shape and the number of doses per compartment; the identity comes first when the names agree"""
+    if st0 is None or st1 is None:
+        return [{}]
+    c0, e0 = st0
+    c1, e1 = st1
+    if set(c0) == set(c1):
+        return [{}]
+    if len(c0) != len(c1) or len(c0) > 6:
+        return [{}]
+    n0 = sorted(c0)
+    out = []
+    for perm in itertools.permutations(sorted(c1)):
+        cmap = dict(zip(n0, perm))
+        if any(c0[a][1] != c1[b][1] for a, b in cmap.items()):
+            continue
+        full = dict(cmap)
+        full['OUTPUT'] = 'OUTPUT'
+        if {(full[u], full[v]) for u, v in e0} != e1:
+            continue
+        out.append(cmap)
+        if len(out) >= limit:
+            break
+    return out or [{}]
+
+
 def sig_diff(s1, s2):
     """None if two signatures agree (compartments matched by name), else a description"""
     if s1 is None or s2 is None:
@@ -393,7 +443,9 @@ def _variants():
         'fix_second_theta': lambda m: P.fix_parameters(m, [P.get_thetas(m).names[1]]),
         'fix_all_thetas': lambda m: P.fix_parameters(m, P.get_thetas(m).names),
         'fix_last_iiv_omega_to_0': lambda m: P.fix_parameters_to(
-            m, {[_sp(d.variance).name for d in m.random_variables.etas if len(d.names) == 1][-1]: 0}),
+            m, {[_sp(d.variance).name for d in m.random_variables.iiv if len(d.names) == 1][-1]: 0}),
+        'fix_last_iov_omega_to_0': lambda m: P.fix_parameters_to(
+            m, {[_sp(d.variance).name for d in m.random_variables.iov if len(d.names) == 1][-1]: 0}),
         'add_unused_parameter': lambda m: P.add_population_parameter(m, 'FOOUNUSED', 1.5),
         'add_iiv_S1': lambda m: P.add_iiv(m, 'S1', 'exp'),
         'add_allometry': lambda m: P.add_allometry(m, allometric_variable='WGT'),
@@ -411,7 +463,7 @@ _BASE_VARIANTS_QUICK = [
     ('pheno_linear', ['none', 'add_unused_parameter']),
     ('moxo', ['none', 'add_peripheral_compartment', 'remove_lag_time', 'set_zero_order_absorption',
               'split_joint_distribution', 'fix_second_theta', 'fix_last_iiv_omega_to_0',
-              'set_combined_error_model', 'remove_iov', 'add_unused_parameter']),
+              'fix_last_iov_omega_to_0', 'set_combined_error_model', 'remove_iov', 'add_unused_parameter']),
 ]
 
 
@@ -624,6 +676,99 @@ def _ode_is_linear_bolus(model):
     return True
 
 
+def _fixed_variance_rvs(model):
+    """random variables whose variance parameter is fixed"""
+    out = set()
+    pars = {p.name: p for p in model.parameters}
+    for dist in model.random_variables:
+        names = dist.names
+        var = dist.variance
+        diag = [var] if len(names) == 1 else [var[i, i] for i in range(len(names))]
+        for n, v in zip(names, diag):
+            sv = _sp(v)
+            if isinstance(sv, sympy.Symbol) and sv.name in pars and pars[sv.name].fix:
+                out.add(n)
+    return out
+
+
+def _compare_models(m0, m1, ref, pts, ren, cmap, dvs, ips, solve, ip_must_stay=True):
+    """compare the reference evaluation `ref` of m0 with m1 at every point, under the renaming `ren` of
+    symbols and the renaming `cmap` of compartments.  Returns [(clause, detail)] (one per clause)."""
+    out = []
+    seen = set()
+
+    def fail(key, clause, detail):
+        if key not in seen:
+            seen.add(key)
+            out.append((clause, detail))
+
+    am_ren = {}
+    st0 = cs_structure(m0)
+    st1 = cs_structure(m1)
+    if cmap and st0 and st1:
+        for a, b in cmap.items():
+            am_ren[st0[0][a][0]] = st1[0][b][0]
+    full_ren = dict(ren)
+    full_ren.update(am_ren)
+    for k, pt in enumerate(pts):
+        d0, sig0, env0 = ref[k]
+        if any(_isbad(d0.get(y, float('nan'))) for y in dvs):
+            continue
+        pt1 = rename_point(pt, full_ren)
+        try:
+            d1, sig1, env1 = eval_model(m1, pt1, 'input')
+        except Undefined as e:
+            fail('defined', 'every symbol used is defined (parameter, random variable, data column, t, amount '
+                 'or earlier assignment)', str(e))
+            continue
+        for y in dvs:
+            y1 = ren.get(y, y)
+            if y1 not in d1:
+                fail('dvdef', 'dependent variables have the same value at every grid point',
+                     f'{y1} is not assigned')
+            elif not close(d0[y], d1[y1]):
+                fail('dv', 'dependent variables have the same value at every grid point',
+                     f'{y}: {d0[y]!r} before, {d1[y1]!r} after, at point {k} {_short_pt(pt)}')
+        for p in ips:
+            p1 = ren.get(p, p)
+            if p not in d0 or _isbad(d0[p]):
+                continue
+            if p1 not in d1:
+                if ip_must_stay:
+                    fail('ipdef', 'individual parameters stay defined (up to the declared renaming)',
+                         f'{p1} is no longer assigned')
+            elif not close(d0[p], d1[p1]):
+                fail('ip', 'individual parameters have the same value at every grid point',
+                     f'{p}: {d0[p]!r} before, {d1[p1]!r} after, at point {k} {_short_pt(pt)}')
+        if solve:
+            for a, v in ode_reference_amounts(sig0, env0['t']).items():
+                if a not in d1:
+                    fail('amdef', 'closed-form amounts equal the reference solution of the compartmental system',
+                         f'{a}(t) is not assigned after solve_ode_system')
+                elif not close(v, d1[a], rtol=1e-6, atol=1e-9):
+                    fail('am', 'closed-form amounts equal the reference solution of the compartmental system',
+                         f'{a}(t): reference {v!r}, closed form {d1[a]!r} at point {k} {_short_pt(pt)}')
+            if sig1 is not None:
+                fail('odeleft', 'solve_ode_system leaves no compartmental system', 'ode_system still present')
+        else:
+            diff = sig_diff(sig_rename(sig0, cmap), sig1)
+            if diff:
+                fail('sig', 'compartmental system is the same (doses, lag time, bioavailability, rates) at every '
+                     'grid point, up to renaming of compartments', f'{diff} at point {k}')
+        # marginal variances of the random effects
+        try:
+            v0 = _variances(m0, pt)
+            v1 = _variances(m1, pt1)
+            for n, val in v0.items():
+                n1 = ren.get(n, n)
+                if n1 in v1 and not close(val, v1[n1]):
+                    fail('var', 'random effects keep their marginal variance',
+                         f'var({n}) {val!r} before, {v1[n1]!r} after at point {k}')
+        except Undefined as e:
+            fail('vardef', 'random effects keep their marginal variance', f'variance not evaluable: {e}')
+    return out
+
+
 _K_QUICK = 6
 _K_THOROUGH = 12
 
@@ -698,28 +843,35 @@ def run_refactoring_case(case, tier='quick'):
 
     # precondition: the original model evaluates
     snap = _snapshot(m0)
-    solve = case['refactoring'] == 'solve_ode_system'
+    r = case['refactoring']
+    solve = r == 'solve_ode_system'
     if solve and not _ode_is_linear_bolus(m0):
-        mode0 = None  # no reference solution: only check "no internal error" and definedness
-    else:
-        mode0 = 'ode' if solve else 'input'
+        # "can currently only handle the most simple of ODE systems": outside the documented domain
+        return {'nontrivial': False, 'fails': []}
+    mode0 = 'ode' if solve else 'input'
     try:
-        ref = [eval_model(m0, pt, mode0 or 'input') for pt in pts]
+        ref = [eval_model(m0, pt, mode0) for pt in pts]
     except Undefined as e:
         return {'nontrivial': False, 'fails': [], 'note': f'original model not evaluable: {e}'}
 
-    if case['refactoring'] in ('split_joint_distribution', 'create_joint_distribution'):
+    nonfixed = []
+    if r in ('split_joint_distribution', 'create_joint_distribution'):
         iiv = _iiv_eta_groups(m0)
-        nonfixed = [n for n in iiv if n not in zero_variance_rvs(m0)]
-        if case['refactoring'] == 'create_joint_distribution':
+        fixed = _fixed_variance_rvs(m0)
+        nonfixed = [n for n in iiv if n not in fixed]
+        if r == 'create_joint_distribution':
             sel = case['arg'] if case['arg'] is not None else nonfixed
-            if len(sel) < 2:
+            # documented precondition: "The etas must be IIVs and cannot be fixed"
+            if len(sel) < 2 or any(n in fixed for n in sel):
                 return {'nontrivial': False, 'fails': []}
+        elif case['arg'] is not None and any(n in fixed for n in case['arg']):
+            return {'nontrivial': False, 'fails': []}
+    if r == 'unload_load_dataset' and (m0.dataset is None or m0.datainfo.path is None):
+        # load_dataset reads datainfo.path: precondition
+        return {'nontrivial': False, 'fails': []}
     try:
         m1, ren = run(m0, case['arg'])
     except Exception as e:
-        if solve and mode0 is None and isinstance(e, NotImplementedError):
-            return {'nontrivial': False, 'fails': []}
         tb = traceback.format_exc().strip().splitlines()
         loc = [ln.strip() for ln in tb if ln.strip().startswith('File')][-1:]
         fail('refactoring completes without an exception on a valid model',
@@ -731,90 +883,34 @@ def run_refactoring_case(case, tier='quick'):
             and after[4] == snap[4]):
         fail('input model is not modified', 'statements/parameters/random variables/dataset of the input changed')
 
+    format_change = r.startswith('convert_model') or r == 'model_code_reparse'
+    if format_change:
+        # a model format may impose its own names on parameters / random variables (declared by position)
+        ren = dict(ren)
+        for a, b in _positional_renaming(m0, m1).items():
+            if a != b:
+                ren[a] = b
+
     dvs, ips = _observables(m0)
     dv1 = [_sname(y) for y in m1.dependent_variables]
     if sorted(ren.get(y, y) for y in dvs) != sorted(dv1):
         fail('dependent variables are the same up to the declared renaming',
              f'{dvs} -> {dv1} with renaming {ren}')
 
-    bad_seen = set()
-    for k, pt in enumerate(pts):
-        d0, sig0, env0 = ref[k]
-        if any(_isbad(d0.get(y, float('nan'))) for y in dvs):
-            continue
-        pt1 = rename_point(pt, ren)
-        # a fixed parameter keeps its value, a removed parameter is simply not read
-        try:
-            d1, sig1, env1 = eval_model(m1, pt1, 'input')
-        except Undefined as e:
-            if 'defined' not in bad_seen:
-                bad_seen.add('defined')
-                fail('every symbol used is defined (parameter, random variable, data column, t, amount or '
-                     'earlier assignment)', str(e))
-            continue
-        for y in dvs:
-            y1 = ren.get(y, y)
-            if y1 not in d1:
-                if 'dvdef' not in bad_seen:
-                    bad_seen.add('dvdef')
-                    fail('dependent variables have the same value at every grid point', f'{y1} is not assigned')
-                continue
-            if not close(d0[y], d1[y1]) and 'dv' not in bad_seen:
-                bad_seen.add('dv')
-                fail('dependent variables have the same value at every grid point',
-                     f'{y}: {d0[y]!r} before, {d1[y1]!r} after, at point {k} {_short_pt(pt)}')
-        for p in ips:
-            p1 = ren.get(p, p)
-            if p not in d0 or _isbad(d0[p]):
-                continue
-            if p1 not in d1:
-                if 'ipdef' not in bad_seen:
-                    bad_seen.add('ipdef')
-                    fail('individual parameters have the same value at every grid point',
-                         f'{p1} is no longer assigned')
-                continue
-            if not close(d0[p], d1[p1]) and 'ip' not in bad_seen:
-                bad_seen.add('ip')
-                fail('individual parameters have the same value at every grid point',
-                     f'{p}: {d0[p]!r} before, {d1[p1]!r} after, at point {k} {_short_pt(pt)}')
-        if solve:
-            if mode0 == 'ode':
-                for a, v in ode_reference_amounts(sig0, env0['t']).items():
-                    if a not in d1:
-                        if 'amdef' not in bad_seen:
-                            bad_seen.add('amdef')
-                            fail('closed-form amounts equal the reference solution of the compartmental system',
-                                 f'{a}(t) is not assigned after solve_ode_system')
-                    elif not close(v, d1[a], rtol=1e-6, atol=1e-9) and 'am' not in bad_seen:
-                        bad_seen.add('am')
-                        fail('closed-form amounts equal the reference solution of the compartmental system',
-                             f'{a}(t): reference {v!r}, closed form {d1[a]!r} at point {k} {_short_pt(pt)}')
-            if sig1 is not None and 'odeleft' not in bad_seen:
-                bad_seen.add('odeleft')
-                fail('solve_ode_system leaves no compartmental system', 'ode_system still present')
-        else:
-            diff = sig_diff(sig0, sig1)
-            if diff and 'sig' not in bad_seen:
-                bad_seen.add('sig')
-                fail('compartmental system is the same (doses, lag time, bioavailability, rates) at every grid point',
-                     f'{diff} at point {k}')
-        # marginal variances of the random effects that the model function reads
-        try:
-            v0 = _variances(m0, pt)
-            v1 = _variances(m1, pt1)
-            for n, val in v0.items():
-                n1 = ren.get(n, n)
-                if n1 in v1 and not close(val, v1[n1]) and 'var' not in bad_seen:
-                    bad_seen.add('var')
-                    fail('random effects keep their marginal variance',
-                         f'var({n}) {val!r} before, {v1[n1]!r} after at point {k}')
-        except Undefined as e:
-            if 'vardef' not in bad_seen:
-                bad_seen.add('vardef')
-                fail('random effects keep their marginal variance', f'variance not evaluable: {e}')
+    st0 = cs_structure(m0)
+    st1 = None if solve else cs_structure(m1)
+    best = None
+    for cmap in compartment_bijections(st0, st1):
+        got = _compare_models(m0, m1, ref, pts, ren, cmap, dvs, ips, solve,
+                              ip_must_stay=not (format_change or r == 'cleanup_model'))
+        if best is None or len(got) < len(best):
+            best = got
+        if not got:
+            break
+    for clause, detail in best:
+        fail(clause, detail)
 
     # refactoring specific documented effects
-    r = case['refactoring']
     if r == 'unload_load_dataset' and m0.dataset is not None:
         if m1.dataset is None or not m1.dataset.equals(m0.dataset):
             fail('load_dataset after unload_dataset restores an equal dataset', 'datasets differ')
